@@ -529,20 +529,42 @@ func checkC03(v *tunView, m *connModel) {
 		}
 	}
 	sort.Slice(oks, func(i, j int) bool { return oks[i].call.Ret.Seq < oks[j].call.Ret.Seq })
+	// An acknowledgement is on offer to the senders for one resend interval from the moment the
+	// receive loop has taken it in (which is when the socket read it, or the end of the loop's
+	// stall if that is later); one that is older than that when the Send returns cannot be what the
+	// Send consumed - unless the library keeps acknowledgements around for longer than it says.
+	fresh := func(a *ackRx, ret Stamp) bool {
+		if m.giveUp {
+			return true
+		}
+		took := a.at.T
+		if ep := m.epochAt(a.at); ep != nil && ep.StallUntil > took {
+			took = ep.StallUntil
+		}
+		return ret.T-took <= c.R+2*eps
+	}
 	for _, q := range oks {
-		found := false
-		for _, a := range acks {
-			if a.used || a.ch != q.ch || a.seq != q.seq || a.status != 0 {
-				continue
+		found, stale := false, false
+		for pass := 0; pass < 2 && !found; pass++ {
+			for _, a := range acks {
+				if a.used || a.ch != q.ch || a.seq != q.seq || a.status != 0 {
+					continue
+				}
+				if a.at.Seq > q.call.Ret.Seq {
+					continue
+				}
+				if pass == 0 && !fresh(a, q.call.Ret) {
+					continue // prefer one that can still have been on offer
+				}
+				if pass == 1 {
+					stale = true
+				}
+				a.used, found = true, true
+				break
 			}
-			// (no lower bound on the age of the acknowledgement: the statement only asks for a
-			// matching acknowledgement that was not consumed before; one that waited in the
-			// receive path is legal here - what it does to exactly-once delivery is C05's business)
-			if a.at.Seq > q.call.Ret.Seq {
-				continue
-			}
-			a.used, found = true, true
-			break
+		}
+		if found && stale {
+			e.Violate("C03", "success-by-expired-ack", "Send id=%d (channel %d, seq %d) reported success at %v; the only matching acknowledgements the client had read by then were older than one resend interval (%v) and should no longer have been on offer", q.call.ID, q.ch, q.seq, q.call.Ret.T, c.R)
 		}
 		if !found {
 			e.Violate("C03", "success-without-ack", "Send id=%d (channel %d, seq %d) reported success at %v but no unconsumed acknowledgement with that channel, sequence number and status OK had been read by the client", q.call.ID, q.ch, q.seq, q.call.Ret.T)
